@@ -880,7 +880,8 @@ OLD_VALUES = {"PatientName": "OLD^NAME", "StudyDate": "20190101", "AccessionNumb
 
 @harness(
     "C29",
-    timeout=(120, 600),
+    timeout=(400, 900),
+    shards=[{"f0": 0}, {"f0": 1}],
     functions=["apps.qrscp.db:add_instance"],
     bounds="one SOP Instance stored twice through db.add_instance: which of the optional keys (PatientName, StudyDate, "
            "AccessionNumber, StudyID, Modality) each copy carries is solver-symbolic (5 + 5 bools), the second copy's "
@@ -891,6 +892,7 @@ OLD_VALUES = {"PatientName": "OLD^NAME", "StudyDate": "20190101", "AccessionNumb
 def restore_instance(first: List[bool], second: List[bool], v: str) -> bool:
     """
     pre: len(first) == 5 and len(second) == 5
+    pre: first[0] == bool(shard("f0", 0))
     pre: 1 <= len(v) <= 2 and text_ok(v)
     post: _ == True
     """
